@@ -1,7 +1,8 @@
 import BarterModel.Driver.Common
 import BarterModel.Model.Backtest
 /-! Line-protocol driver for C20.
-Ops: `data_slow g k ...` (same as `data`, paced source), `data k (i:p | R) ...` (`R` = `MarketStreamEvent::Reconnecting` marker, anywhere), `strat t:i:s:q ...` | `strat -`, `run n w`,
+Ops: `data_slow g k ...` (same as `data`, paced source), `data k (i:p[:K][@t] | R) ...` (`R` = `MarketStreamEvent::Reconnecting` marker, anywhere; `K` = kind of the Item, every `DataKind`;
+an EMPTY dataset is legal input: `MarketDataInMemory::new` panics on it as on a marker-only one, `run` prints `panic`), `strat t:i:s:q ...` | `strat -`, `run n w`,
 `longdata n k rp ro pm tm` (a LONG dataset given by the formula `Backtest.genEv`; `run` then prints the digests `lseen` / `linst` / `lreqs`).
 
 `model` runs every strategy parameterisation alone with `run` under a lazy and an eager action list
@@ -54,12 +55,16 @@ def parseEvents (k : Nat) (toks : List String) : Option (List MktEv) :=
     | "R" :: ts => (go (pos + 1) ts).map (fun l => MktEv.reconnecting pos :: l)
     | t :: ts =>
       -- `i:p@t`: an explicit exchange time; the dataset order, not the time, is what the property is about
-      match ((t.splitOn "@").headD t).splitOn ":" with
-      | [i, p] =>
+      -- `i:p:K`: the kind of the Item (`s` sell trade, `z` trade of amount 0, `l` L1, `b` / `u` order book snapshot /
+      -- update, `c` candle, `q` liquidation): whatever its kind, an Item is one dataset element with an instrument and a price
+      let item (i p : String) : Option (List MktEv) :=
         match i.toNat?, p.toNat? with
         | some i, some p =>
           if i < k then (go (pos + 1) ts).map (fun l => MktEv.trade pos i p :: l) else none
         | _, _ => none
+      match ((t.splitOn "@").headD t).splitOn ":" with
+      | [i, p] => item i p
+      | [i, p, kd] => if ["t", "s", "z", "l", "b", "u", "c", "q"].contains kd then item i p else none
       | _ => none
   go 0 toks
 
@@ -293,7 +298,7 @@ def model : Drv St where
             | none => s.plans.map (longRes p)
           ({ s with lcache := some res }, runLongModel s p n res)
         else
-        if s.plans.isEmpty || s.ds.isEmpty then (s, ["bad-op"]) else
+        if s.plans.isEmpty then (s, ["bad-op"]) else
         if !hasItem s.ds then (s, ["panic"]) else
         let res := match s.cache with
           | some r => r
@@ -354,7 +359,7 @@ def spec : Drv St where
           else if !longHasItem p then (s, ["panic"])
           else (s, runLongSpec s p n)
         else
-        if s.plans.isEmpty || s.ds.isEmpty then (s, ["bad-op"])
+        if s.plans.isEmpty then (s, ["bad-op"])
         else if !hasItem s.ds then (s, ["panic"])  -- documented precondition: at least one Item
         else (s, runSpec s n)
       | _, _ => (s, ["bad-op"])
